@@ -173,3 +173,33 @@ func (c *Ctx) EditBall(seed []byte, atoms [][]byte, f func(in []byte)) {
 		}
 	}
 }
+
+// ByteSweep calls f for seed with every one of the 256 byte values substituted at, and (if insert) inserted before,
+// every byte position: one representative of every byte class a hand-written scanner can distinguish, in every
+// context the seed offers. Work is sharded by candidate number.
+func (c *Ctx) ByteSweep(seed []byte, insert bool, f func(in []byte)) {
+	k := 0
+	emit := func(b []byte) {
+		k++
+		if !c.Mine(k) {
+			return
+		}
+		tmp := make([]byte, len(b), len(b)+8)
+		copy(tmp, b)
+		tmp[:len(b)+1][len(b)] = 0xEE
+		f(tmp)
+	}
+	buf := make([]byte, 0, len(seed)+1)
+	for i := 0; i <= len(seed); i++ {
+		for v := 0; v < 256; v++ {
+			if i < len(seed) && byte(v) != seed[i] {
+				buf = append(append(append(buf[:0], seed[:i]...), byte(v)), seed[i+1:]...)
+				emit(buf)
+			}
+			if insert {
+				buf = append(append(append(buf[:0], seed[:i]...), byte(v)), seed[i:]...)
+				emit(buf)
+			}
+		}
+	}
+}
